@@ -47,7 +47,7 @@ var nativeHandlers = map[string]nativeHandler{
 	"github.com/invopop/gobl/tax.RegimeDefFor": func(i *interpreter, args []value) value {
 		return i.importNative(reflect.ValueOf(tax.RegimeDefFor(l10n.Code(strArg(args[0])))))
 	},
-	"(*github.com/invopop/gobl/tax.RegimeCollection).For": func(i *interpreter, args []value) value {
+	"(*github.com/invopop/gobl/tax.RegimeDefCollection).For": func(i *interpreter, args []value) value {
 		return i.importNative(reflect.ValueOf(tax.Regimes().For(l10n.Code(strArg(args[1])))))
 	},
 	"github.com/invopop/gobl/tax.AllRegimeDefs": func(i *interpreter, args []value) value {
